@@ -56,6 +56,12 @@ def mutants(items, rng, cap=40):
             out.append((items[:i] + [(SUBST[name], value)] + items[i + 1:], "subst:%s>%s" % (name, SUBST[name])))
         if name in NONCOMM:
             out.append((items[:i] + [("SWAP1", None)] + items[i:], "operand-swap:" + name))
+        if name in ("PUSH #[$]", "PUSH [$]", "PUSH data", "PUSHIMMUTABLE", "PUSH [tag]") and value is not None:
+            # another kind of pseudo push with the same operand (all of them share the placeholder opcode 00)
+            for other in ("PUSH #[$]", "PUSH [$]", "PUSH data"):
+                if other != name:
+                    out.append((items[:i] + [(other, value)] + items[i + 1:], "subst:pseudo-kind"))
+                    break
         if name == "PUSH":
             v = int(value, 16)
             for nv in (v ^ 1, (v + 32) & evm.M256, 0 if v else 1):
